@@ -179,7 +179,7 @@ def _unpack_plaintext(data: bytes) -> bytes:
         ) from exc
 
 
-def _compute_call_aad(auth: AuthContext | None) -> bytes:
+def _compute_call_aad(auth: AuthContext | None, method: str = "") -> bytes:
     r"""Build the AAD that binds a *call* token to its issuing principal.
 
     Identical in shape to :func:`_compute_aad` but with a distinct
@@ -188,14 +188,27 @@ def _compute_call_aad(auth: AuthContext | None) -> bytes:
     other is expected fails the AEAD tag check rather than decoding into a
     payload the reader will misinterpret.
 
+    The stream method's name is part of the AAD as well (between the prefix
+    and the identity tail).  The call token is the only thing a cold worker
+    learns a stream's call state and schemas from, so without the name any
+    other stream endpoint of the service would open it and run its own
+    state class over bytes a different method minted.
+
     Args:
         auth: The authentication context for the current request.
+        method: Name of the stream method whose ``/init`` mints the token
+            (and whose ``/exchange`` presents it).  ``""`` leaves the
+            method component out.
 
     Returns:
         Associated-data bytes for the AEAD seal/open call.
 
     """
     prefix = b"vgi_rpc.call.v1\x00"
+    if method:
+        # A method name is an identifier: it can neither contain NUL nor
+        # start with the \x00 / \x01 that opens the identity tail.
+        prefix += method.encode() + b"\x00"
     if auth is None or not auth.authenticated:
         return prefix + b"\x00anonymous"
     domain = (auth.domain or "").encode()
@@ -412,7 +425,7 @@ class _ResolvedCall:
     :meth:`StreamState.bind_call_state` documents.
     """
 
-    __slots__ = ("call_state", "created_at", "input_schema", "output_schema", "stream_id")
+    __slots__ = ("call_state", "created_at", "input_schema", "method", "output_schema", "stream_id")
 
     def __init__(
         self,
@@ -421,6 +434,7 @@ class _ResolvedCall:
         input_schema: pa.Schema,
         stream_id: str,
         created_at: int | None = None,
+        method: str = "",
     ) -> None:
         self.call_state = call_state
         self.output_schema = output_schema
@@ -430,6 +444,10 @@ class _ResolvedCall:
         # the instance ``/init`` caches directly (its token is being minted
         # in the same breath, so "now" is the right reference there).
         self.created_at = created_at
+        # The stream method this call belongs to.  A cache hit skips the call
+        # token (and with it the AAD that names the method), so the cached
+        # entry has to carry the name for the hit path to compare.
+        self.method = method
 
 
 class _CallStateCache:
@@ -516,6 +534,7 @@ def _mint_call_token(
     stream_id: str,
     *,
     now: int | None = None,
+    method: str = "",
 ) -> tuple[bytes, bytes, bytes]:
     """Serialize and seal a stream's call token.  Called once, by ``/init``.
 
@@ -527,6 +546,8 @@ def _mint_call_token(
         auth: Authenticated identity for AAD binding.
         stream_id: Chain-correlation id.
         now: Override for the baked-in timestamp; default ``time.time()``.
+        method: The stream method minting the token; bound into the AAD so
+            no other method's endpoint can open it.
 
     Returns:
         ``(token, call_id, call_state_bytes)``.  ``call_id`` must be threaded
@@ -544,7 +565,7 @@ def _mint_call_token(
         call_id,
         stream_id,
         token_key,
-        _compute_call_aad(auth),
+        _compute_call_aad(auth, method),
         int(time.time()) if now is None else now,
     )
     return token, call_id, call_state_bytes
